@@ -14,7 +14,8 @@ EXTENDS JoseDefs, TLC, Json
 
 CONSTANTS Dev, Family
 DevNames == {"CritNotChecked", "StrictIgnoredOnConsume", "CheckMoreNotPassed", "RequiredCustomIgnored",
-             "B64CritNotRequired", "BoolIsInt", "TypesUncheckedInJson", "StopAtFirstUsable", "StaleHeaderSnapshot", "CallerOverrideIgnored"}
+             "B64CritNotRequired", "BoolIsInt", "TypesUncheckedInJson", "StopAtFirstUsable", "StaleHeaderSnapshot", "CallerOverrideIgnored",
+             "ForeignAlgParamsRegistered"}
 ASSUME Dev \subseteq DevNames
 
 JT == {"absent", "str_ok", "str_bad", "int_pos", "int_zero", "int_neg", "float", "true", "false", "null",
@@ -132,7 +133,10 @@ Allowed(case) == IF Violated(case) THEN {"fail"} ELSE IF Soft(case) THEN {"ok", 
 VARIABLES case, pc, out
 vars == <<case, pc, out>>
 
-FocusParams(m) == RegNames(m, "opt") \cup {"xyz", "b64", "epk", "p2c", "iv", "kid"}
+\* besides the registered names: an unknown name, and the parameters that only SOME algorithm families register (under any
+\* other algorithm they are unregistered names like any other - "skid" belongs to ECDH-1PU alone)
+AlgFamilyParams == {"epk", "p2c", "iv", "skid", "tag", "p2s", "apu"}
+FocusParams(m) == RegNames(m, "opt") \cup {"xyz", "b64", "kid"} \cup (IF SideOf(m) = "jwe" THEN AlgFamilyParams ELSE {"epk", "p2c", "iv"})
 
 \* the case space is enumerated by nested quantifiers (TLC never builds - and normalises - the product set)
 InitCase(m) ==
@@ -199,7 +203,9 @@ CheckMore ==
      IN IF missing \/ illtyped THEN Fail ELSE Goto("strict")
 CheckStrict ==
   /\ pc = "strict"
-  /\ IF Unregistered(case) /\ ~("StrictIgnoredOnConsume" \in Dev /\ case.op = "consume") THEN Fail
+  /\ IF Unregistered(case) /\ ~("StrictIgnoredOnConsume" \in Dev /\ case.op = "consume")
+        /\ ~("ForeignAlgParamsRegistered" \in Dev /\ case.p \in AlgFamilyParams)      \* one algorithm's table leaks into another's
+     THEN Fail
      ELSE Goto(IF case.rcp \in {"first_all", "first_any"} THEN "other_after" ELSE "operate")
 \* the operation proper: succeeds when every value is a good representative; may fail otherwise
 Operate ==
